@@ -117,6 +117,29 @@ pub fn check(case: &Case, st: &mut Stats) -> Result<(), String> {
             }
         }
     }
+    // every chunk queued first, then one feed loop (a keyword may then span three or more buffers)
+    {
+        let parser = xml5ever::driver::parse_document(ModelDom::new(), Default::default());
+        for c in &case.chunks {
+            parser.input_buffer.push_back(tendril::StrTendril::from(c.as_str()));
+        }
+        let mut guard = 0;
+        while let markup5ever::TokenizerResult::Script(_) = parser.tokenizer.feed(&parser.input_buffer) {
+            guard += 1;
+            if guard > 1_000_000 {
+                return Err("feed() keeps returning Script".into());
+            }
+        }
+        use tendril::TendrilSink;
+        let dom = parser.finish();
+        let t = model_canon(&dom, DOC, CanonOpts::default());
+        if t != base {
+            return Err(format!(
+                "XML tree with all chunks queued before the first feed() differs from the one-piece default tree: {}",
+                first_diff(&base, &t)
+            ));
+        }
+    }
     // RcDom agrees with ModelDom under chunking
     let (rd, _) = drive_xml(RcDom::default(), &dflt, &case.chunks, |_, _| {});
     let (rd1, _) = drive_xml(RcDom::default(), &dflt, &one, |_, _| {});
@@ -217,7 +240,7 @@ pub fn decode(s: &mut Src) -> Case {
 
 pub fn run(ctx: &Ctx) -> Report {
     let mut rep = Report::new(
-        "Metamorphic over xml5ever: tokens (errors dropped, characters merged) and tree (ModelDom and RcDom dumps) of the one-piece default run must equal those of any chunking, of exact_errors=true, of the crate's own driver (XmlParser::process per chunk + finish), and of the newline/NUL-normalised input (CRLF/CR->LF, NUL->U+FFFD; a normalised input never arms the CR-LF skipping state, so this isolates 'a line break next to a character reference is neither lost nor doubled' and 'NUL->U+FFFD on every path'); discard_bom=true == parse of the input minus its first U+FEFF. Search: (1) every partition of every pool input (<=11 chars: pairs of pieces CR, CRLF, NUL, &amp; &amp &am &#65; &#x41 &# & U+FEFF, tags, quotes, comments, PIs, CDATA); (2) generated namespaced XML documents with noise and sprinkled CR/NUL/references, random chunkings incl. empty and one-character chunks. Non-trivial: the input contains CR, NUL, U+FEFF or '&'; distinct by hash of (chunks, discard_bom).",
+        "Metamorphic over xml5ever: tokens (errors dropped, characters merged) and tree (ModelDom and RcDom dumps) of the one-piece default run must equal those of any chunking, of exact_errors=true, of the crate's own driver (XmlParser::process per chunk + finish), of queueing every chunk before the first feed(), and of the newline/NUL-normalised input (CRLF/CR->LF, NUL->U+FFFD; a normalised input never arms the CR-LF skipping state, so this isolates 'a line break next to a character reference is neither lost nor doubled' and 'NUL->U+FFFD on every path'); discard_bom=true == parse of the input minus its first U+FEFF. Search: (1) every partition of every pool input (<=11 chars: pairs of pieces CR, CRLF, NUL, &amp; &amp &am &#65; &#x41 &# & U+FEFF, tags, quotes, comments, PIs, CDATA); (2) generated namespaced XML documents with noise and sprinkled CR/NUL/references, random chunkings incl. empty and one-character chunks. Non-trivial: the input contains CR, NUL, U+FEFF or '&'; distinct by hash of (chunks, discard_bom).",
     );
     report_known(ctx, &mut rep, &|v| replay(&ctx.strict_clone(), v));
     run_regressions(ctx, &mut rep, &|v| replay(&ctx.strict_clone(), v));
